@@ -4,14 +4,17 @@
 (* predicate on numbers: the number N stands for "every number that is no   *)
 (* id of the registry" (|_| true accepts those too).                        *)
 EXTENDS Retain, Shapes, Json
-CONSTANTS N, MaxKids, WithOutside
+CONSTANTS N, MaxKids, WithOutside, KindShifts
 Ids == 0..(N-1)
 KidSeqs == UNION {[1..k -> Ids] : k \in 0..MaxKids}
 \* leaf nodes take their definition from a second family as well (salt = 1): unit type, empty enum, u256
-Sel(t, ks, salt) == t + (IF Len(ks) >= 1 THEN ks[1] ELSE 0) + (IF Len(ks) >= 2 THEN 2 * ks[2] ELSE 0) + (IF Len(ks) = 0 THEN 3 * salt ELSE 0)
-RegOfS(kids, salt) == [p \in 1..N |-> WithId(ShapeBody(p-1, kids[p-1], Sel(p-1, kids[p-1], salt)), p-1)]
-RegOf(kids) == RegOfS(kids, 0)
-Init == \E kids \in [Ids -> KidSeqs] : \E salt \in 0..1 : (salt = 1 => \E i \in Ids : kids[i] = <<>>) /\ \E k \in SUBSET (Ids \cup (IF WithOutside THEN {N} ELSE {})) : TInitWith(RegOfS(kids, salt), k)
+\* nodes with references rotate through the definition kinds of their arity as well (shift \in KindShifts, one per
+\* registry): without it the kind of a node is a function of (node, children), and e.g. a tuple whose two members are
+\* the same type only ever occurred ABOVE that type's id, where an id left unrewritten still resolves
+Sel(t, ks, salt, shift) == t + (IF Len(ks) >= 1 THEN ks[1] + shift ELSE 0) + (IF Len(ks) >= 2 THEN 2 * ks[2] ELSE 0) + (IF Len(ks) = 0 THEN 3 * salt ELSE 0)
+RegOfS(kids, salt, shift) == [p \in 1..N |-> WithId(ShapeBody(p-1, kids[p-1], Sel(p-1, kids[p-1], salt, shift)), p-1)]
+RegOf(kids) == RegOfS(kids, 0, 0)
+Init == \E kids \in [Ids -> KidSeqs] : \E salt \in 0..1 : \E shift \in KindShifts : (salt = 1 => \E i \in Ids : kids[i] = <<>>) /\ (shift # 0 => \E i \in Ids : kids[i] # <<>>) /\ \E k \in SUBSET (Ids \cup (IF WithOutside THEN {N} ELSE {})) : TInitWith(RegOfS(kids, salt, shift), k)
 Spec == Init /\ [][RNext]_tvars /\ WF_tvars(RNext)
 Pairs(m) == SetToSeq({<<i, m[i]>> : i \in DOMAIN m})
 Emit == Done => PrintT(<<"REPLAY", ToJson([old |-> orig, keep |-> [i \in 1..N |-> (i-1) \in keep], outside |-> N \in keep, map |-> Pairs(rmap), new |-> newT])>>)
